@@ -8,6 +8,7 @@ import (
 	sentinel "github.com/alibaba/sentinel-golang/api"
 	"github.com/alibaba/sentinel-golang/core/base"
 	"github.com/alibaba/sentinel-golang/core/flow"
+	"github.com/alibaba/sentinel-golang/core/isolation"
 	"pgregory.net/rapid"
 
 	"verif/harness/hx"
@@ -216,6 +217,8 @@ func TestSequential(t *testing.T) {
 		}()
 		n := rapid.IntRange(1, 60).Draw(t, "n")
 		sawBlock, sawPassAfterBoundary, crossed := false, false, false
+		var held []*base.BlockError
+		var heldAs []string
 		special := len(ms) > 1
 		for _, m := range ms {
 			if m.standalone || m.r.RelationStrategy == flow.AssociatedResource {
@@ -311,6 +314,8 @@ func TestSequential(t *testing.T) {
 				}
 				sawBlock = true
 				crossed = false
+				held = append(held, blk)
+				heldAs = append(heldAs, hx.BlockSnapshot(blk))
 			} else {
 				if blk != nil {
 					t.Fatalf("t=%d Entry(%s,batch %d): spurious rejection by rule %v (reported window value %v); reference window sums leave room", now, res, b, blk.TriggeredRule(), blk.TriggeredValue())
@@ -323,6 +328,27 @@ func TestSequential(t *testing.T) {
 					e.Exit()
 				} else {
 					live = append(live, e)
+				}
+			}
+		}
+		// the block errors handed out stay as they were, whatever ran afterwards - including requests that another module
+		// rejects on recycled contexts (an isolation rule on a resource of its own, exhausted on purpose)
+		if len(held) > 0 {
+			if _, err := isolation.LoadRules([]*isolation.Rule{{Resource: "zz", MetricType: isolation.Concurrency, Threshold: 1}}); err != nil {
+				t.Fatalf("isolation rule: %v", err)
+			}
+			first, _ := sentinel.Entry("zz")
+			for k := 0; k < 8; k++ {
+				if e, _ := sentinel.Entry("zz"); e != nil {
+					e.Exit()
+				}
+			}
+			if first != nil {
+				first.Exit()
+			}
+			for k, b := range held {
+				if now := hx.BlockSnapshot(b); now != heldAs[k] {
+					t.Fatalf("a block error handed to the caller changed afterwards: it was {%s}, now it reads {%s}", heldAs[k], now)
 				}
 			}
 		}
